@@ -12,6 +12,8 @@ import (
 	"strconv"
 	"strings"
 
+	"github.com/bytom/bytom/protocol/vm"
+
 	"verifharness/internal/vh"
 )
 
@@ -251,7 +253,15 @@ type CmpOptions struct {
 // little-endian number without trailing zeros, reach 2^63 / 2^64 (the machine-word boundaries)?
 func argClass(c *Case) string {
 	cls := ""
-	for _, a := range c.Args {
+	items := append([]Bytes{}, c.Args...)
+	if insts, err := vm.ParseProgram(c.Prog); err == nil {
+		for _, i := range insts {
+			if len(i.Data) > 0 && i.Op != vm.OP_JUMP && i.Op != vm.OP_JUMPIF {
+				items = append(items, Bytes(i.Data)) // operands pushed by the program itself
+			}
+		}
+	}
+	for _, a := range items {
 		n := len(a)
 		for n > 0 && a[n-1] == 0 {
 			n--
